@@ -134,7 +134,11 @@ class Report:
             print("  rule %-28s instances=%-4d ok=%-4d violations=%d" % (r, pr["instances"], pr["ok"], pr["violations"]))
         for r, c, m, w in self.floors:
             print("  floor %-27s matched %d %s (floor %d)" % (r, c, w, m))
+        printed = set()
         for v, h in matched:
+            if h["instance_key"] in printed:
+                continue
+            printed.add(h["instance_key"])
             print("KNOWN-FINDING: property=%s %s [%s %s]" % (self.pid, h["what_fails"], v["loc"], v["function"]))
         for k in stale:
             print("  note: known finding %s no longer matches anything (repaired?)" % k["instance_key"])
